@@ -94,7 +94,7 @@ impl Default for ClientSpec {
 pub struct FaultOp {
     /// quiescent-point index at which the fault is applied
     pub at_q: usize,
-    /// restart | evict | evict_all | jump
+    /// restart | evict | evict_all | jump | tick (the engine's tick timer fires at this quiescent point)
     pub kind: String,
     /// evict: index into the started pids; jump: micro-seconds
     pub arg: i64,
